@@ -42,6 +42,13 @@ def main():
             c = e.get("coverage", {})
             out.append("* last committed evidence (%s tier): %s evaluations, %s non-trivial, %s distinct outcomes, bounds completed %s, exhaustive=%s, %.0f s" % (
                 e.get("tier"), c.get("evaluations"), c.get("distinct_nontrivial"), c.get("distinct_outcomes"), ", ".join(c.get("bounds_completed", [])) or "-", c.get("exhaustive"), e.get("wall_s", 0)))
+        ev = os.path.join(ROOT, "evidence_thorough", pid + ".json")
+        if os.path.exists(ev):
+            e = json.load(open(ev))
+            c = e.get("coverage", {})
+            out.append("* last thorough-tier run (evidence_thorough/, `tools/run_all.sh thorough`): %s evaluations, %s non-trivial, %s distinct outcomes, bounds completed %s of %s attempted, exhaustive=%s%s, %d violations, %.0f s" % (
+                c.get("evaluations"), c.get("distinct_nontrivial"), c.get("distinct_outcomes"), ", ".join(c.get("bounds_completed", [])) or "-", len(c.get("bounds_attempted", [])), c.get("exhaustive"),
+                " (deadline reached)" if c.get("deadline_hit") else "", e.get("violations", 0), e.get("wall_s", 0)))
         out.append("")
     kf = json.load(open(os.path.join(ROOT, "known_findings.json")))["findings"]
     out += ["## Appendix C. Findings on the unchanged tree (generated from known_findings.json)", "",
